@@ -57,7 +57,12 @@ def c09(ctx):
         "private/public objects, in every reachable object population within the bounds; after every call the complete "
         "object set with all attribute values (API) and the decoded token directory (independent decoder, no junk "
         "files allowed) must equal the specification, which leaves both unchanged on failure.")
-    ctx.assumptions += ["file-system faults during a call are the subject of the C16 machinery (fault clause)"]
+    # the fault clause: a call that fails because a file operation of the store failed has changed nothing
+    if not ctx.violations:
+        from checks import crash
+        ctx.coverage["failing_file_operations"] = crash.fault_part(ctx, "err")
+    ctx.assumptions += ["fault clause: every file operation of the listed writing calls fails once (LD_PRELOAD shim; a failed "
+                        "flush loses the buffered data); file backend"]
 
 
 def c05(ctx):
@@ -85,6 +90,12 @@ def c05(ctx):
     ctx.coverage["session_object_graph"] = dict(transitions=r2["transitions"], executions=r2["executions"],
                                                 accepted=r2["accepted"])
     ctx.coverage["traces_validated_against_impl"] += r2["accepted"]
+    # the fault clause: a call that could not persist its effect must not return CKR_OK
+    if not ctx.violations:
+        from checks import crash
+        ctx.coverage["failing_file_operations"] = crash.fault_part(ctx, "ok")
+        ctx.assumptions.append("fault clause: every file operation of the listed writing calls fails once (LD_PRELOAD shim; a "
+                               "failed flush loses the buffered data); file backend")
 
 
 def c06(ctx):
